@@ -8,6 +8,7 @@ mod c06;
 mod c03;
 mod c18;
 mod c20;
+mod c07;
 
 use std::io::{BufWriter, Write};
 
@@ -31,6 +32,7 @@ fn main() {
                 "C03" => c03::gen(tier, seed, &mut out),
                 "C18" => c18::gen(tier, seed, &mut out),
                 "C20" => c20::gen(tier, seed, &mut out),
+                "C07" => c07::gen(tier, seed, &mut out),
                 _ => {
                     eprintln!("unknown property {}", prop);
                     std::process::exit(2);
@@ -97,6 +99,7 @@ fn replay_one(toks: &[&str]) -> String {
                 c20::observe_transform(&v)
             }
         }
+        "C07" => c07::replay(toks),
         other => format!("unknown-model {}", other),
     }
 }
